@@ -132,6 +132,73 @@ def task_parser(rules):
     return {'viol': [v.to_json() for v in out[:30]], 'n': n, 'hits': hits}
 
 
+# ---- quoting semantics: the VALUE a rule text denotes ----------------------------
+
+QUOTE_ALPHABET = [b"\\", b"'", b",", b"a", b"arg1=", b" "]
+
+
+def quoting_rules(k):
+    """arg0=<every string of <= k pieces over backslash, apostrophe, comma, a letter, a second key, a space>."""
+    seen = set()
+    for n in range(0, k + 1):
+        for t in itertools.product(QUOTE_ALPHABET, repeat=n):
+            s_ = b'arg0=' + b''.join(t)
+            if s_ not in seen:
+                seen.add(s_)
+                yield s_
+
+
+def task_quoting(rules):
+    """For each rule the model accepts, the bus must deliver exactly the signals whose arguments equal the values the
+    specification's quoting rules give (and not a signal whose argument differs by one character)."""
+    bus = worker_bus()
+    out, hits = [], {}
+    n = 0
+    try:
+        bus.reset(B.make_config())
+        c = bus.connect(0)
+        bus.hello(c)
+        s_ = bus.connect(0)
+        bus.hello(s_)
+        for rule in rules:
+            verdict = M.parse(rule)
+            hits['quoting:' + verdict[0]] = hits.get('quoting:' + verdict[0], 0) + 1
+            if verdict[0] != 'valid':
+                continue
+            r = verdict[1]
+            if not r.args or any(k != 'str' for k, _ in r.args.values()):
+                continue
+            case = {'part': 'quoting', 'rule': rule.hex()}
+            ser, o = bus.bus_method(c, 'AddMatch', [R.S(rule)])
+            rep = B.find_reply(o.get(c), ser)
+            if rep is None or rep.mtype != R.MT_RETURN:
+                continue          # acceptance is judged by the parser part
+            nargs = max(r.args) + 1
+            want = [r.args[i][1] if i in r.args else b'other' for i in range(nargs)]
+            variants = [(want, True)]
+            for i in r.args:
+                w2 = list(want)
+                w2[i] = want[i] + b'q'
+                variants.append((w2, False))
+                if want[i]:
+                    w3 = list(want)
+                    w3[i] = want[i][:-1]
+                    variants.append((w3, False))
+            for k_, (args, expect) in enumerate(variants):
+                o = bus.step(s_, R.encode_message(R.signal(bus.next_serial(s_), '/q', 'q.q', 'Q%d' % k_, [R.S(a) for a in args])))
+                got = any(m.mtype == R.MT_SIGNAL and m.field(R.F_MEMBER) == b'Q%d' % k_ for m, _ in (o.get(c).msgs if o.get(c) else []))
+                n += 1
+                if got != expect:
+                    out.append(Violation('quoting-value', 'delivered' if got else 'not-delivered',
+                                         'rule %r denotes the argument values %r; a signal with arguments %r was %s' % (rule, want, args, 'delivered' if got else 'not delivered'), case))
+                    break
+            bus.bus_method(c, 'RemoveMatch', [R.S(rule)])
+    except HarnessDied as e:
+        out.append(crash_violation(e, {'part': 'quoting-batch', 'rules': [r.hex() for r in rules]}))
+        bus.h.close()
+    return {'viol': [v.to_json() for v in out[:30]], 'n': n, 'hits': hits}
+
+
 # ---- matcher ---------------------------------------------------------------
 
 S_NAME = b'com.example.S'
@@ -395,6 +462,8 @@ def run(ctx):
     rules += templated_rules()
     rules = list(dict.fromkeys(rules))
     tasks = [(task_parser, rules[i:i + 250]) for i in range(0, len(rules), 250)]
+    qrules = list(quoting_rules(5 if quick else 6))
+    tasks += [(task_quoting, qrules[i:i + 150]) for i in range(0, len(qrules), 150)]
     # part 2: matcher product
     singles = [(i,) for i in range(len(RULE_POOL))]
     pairs = list(itertools.combinations(range(len(RULE_POOL)), 2))
@@ -402,7 +471,7 @@ def run(ctx):
     for i in range(0, len(combos), 8):
         tasks.append((task_matcher, combos[i:i + 8]))
     pool = Pool()
-    nparse = nprobe = 0
+    nparse = nprobe = nquote = 0
     done = 0
     try:
         for r in pool.imap(_dispatch, tasks):
@@ -414,6 +483,8 @@ def run(ctx):
             ctx.add_violations(r['viol'])
             if any(k.startswith('parse:') for k in r['hits']):
                 nparse += r['n']
+            elif any(k.startswith('quoting:') for k in r['hits']):
+                nquote += r['n']
             else:
                 nprobe += r['n']
             if ctx.expired():
@@ -427,11 +498,11 @@ def run(ctx):
     ctx.coverage.update({
         'states': st['states'] + len(combos), 'transitions': st['transitions'] + nparse + nprobe,
         'traces_validated_against_impl': st['transitions'] + nparse + nprobe,
-        'rule_strings': nparse, 'rule_x_message_probes': nprobe, 'history_states': st['states'], 'history_transitions': st['transitions'],
+        'rule_strings': nparse, 'rule_x_message_probes': nprobe, 'quoting_rules': len(qrules), 'quoting_probes': nquote, 'history_states': st['states'], 'history_transitions': st['transitions'],
         'history_depth': st['completed_depth'], 'history_fixpoint': st['fixpoint'],
         'bound': 'parser: all concatenations of <= %d of %d lexical pieces%s + %d templated/boundary rules; matcher: %d single rules and %d rule pairs x %d probe messages; '
                  'histories: 2 holders x %d-rule pool (pairs differing in one value), add/remove/disconnect/reconnect, BFS depth %d' %
-                 (3 if quick else 4, len(PIECES) - 1, '', len(templated_rules()), len(singles), len(pairs), len(PROBES), 8, st['completed_depth']),
+                 (3 if quick else 4, len(PIECES) - 1, '; quoting: every value of <= %d pieces over {backslash, apostrophe, comma, letter, second key, space}, delivered iff the arguments equal the denoted values' % (5 if quick else 6), len(templated_rules()), len(singles), len(pairs), len(PROBES), 8, st['completed_depth']),
     })
     ctx.sample({'rule': "arg0=\\',arg1=\\,arg2=',',arg3=\\\\", 'expect': 'valid, values \' \\ , \\\\'})
     ctx.sample({'rules': [RULE_POOL[10].decode()], 'probe': 'sig path=/ab', 'expect': 'not delivered'})
@@ -445,6 +516,9 @@ def replay(case):
         return [Violation.from_json(v) for v in r['viol']]
     if case.get('part') == 'parser-batch':
         r = task_parser([bytes.fromhex(x) for x in case['rules']])
+        return [Violation.from_json(v) for v in r['viol']]
+    if case.get('part') == 'quoting':
+        r = task_quoting([bytes.fromhex(case['rule'])])
         return [Violation.from_json(v) for v in r['viol']]
     if case.get('part') == 'matcher':
         r = task_matcher([tuple(case['rules'])])
